@@ -4,16 +4,18 @@ CONSTANTS
   Msgs <- MC_Msgs
   Cap = 1000
   Retention = 1
-  MinDelay = 0
-  MaxEpoch = 6
+  MinDelay = 30
+  QtScale = "1"
+  MaxNow = 63
 INIT Init
 NEXT Next
 CHECK_DEADLOCK FALSE
 INVARIANTS
   Types
-  C08_Window
-  C08_BypassWindow
-  C08_PlainOnlyNewest
-  C08_LatestFlag
-  C08_Frame
+  C09_Limit
+  C09_PlainComplete
+  C09_Clock
+  C09_BypassNeedsOperator
+  C09_BypassIgnoresDelay
+  C09_Frame
   Dump
